@@ -24,6 +24,7 @@
 #include <openssl/sha.h>
 
 #include "data/chunk_list.h"
+#include "data/chunk_list_node.h"
 #include "data/chunk_manager.h"
 #include "data/hash_queue.h"
 #include "download/download_main.h"
@@ -560,6 +561,21 @@ std::string Session::dump_torrent(Torrent* t) {
     << " up_unchoked=" << info->upload_unchoked() << " down_unchoked=" << info->download_unchoked()
     << " chunks_mapped=" << t->main()->chunk_list()->queue_size();
   return o.str();
+}
+
+std::string Session::dump_chunk_refs(Torrent* t) {
+  std::string o;
+  auto* cl = t->main()->chunk_list();
+  auto* v = (std::vector<torrent::ChunkListNode>*)cl;   // private base
+  for (size_t i = 0; i < v->size(); i++)
+    if ((*v)[i].references() != 0) o += (o.empty() ? "" : ",") + std::to_string(i) + ":" + std::to_string((*v)[i].references());
+  return o.empty() ? "-" : o;
+}
+int Session::chunk_refs_total(Torrent* t) {
+  int n = 0;
+  auto* v = (std::vector<torrent::ChunkListNode>*)t->main()->chunk_list();
+  for (auto& node : *v) n += node.references();
+  return n;
 }
 
 std::string Session::dump_global() {
